@@ -235,6 +235,31 @@ static inline void sem_xor_rr(struct x86 *m, uint64_t next, int dst, int src)
     m->rip = next;
 }
 
+/* and/or/xor DWORD PTR [base+disp], imm32  ('a' / 'o' / 'x'); arithmetic flags become arbitrary */
+static inline void sem_alu_m32i(struct x86 *m, uint64_t next, char op, int base, int64_t disp, int64_t imm)
+{
+    const uint64_t a = m->r[base] + (uint64_t)disp;
+    uint32_t v = sem_rd32(a);
+    const uint32_t i = (uint32_t)imm;
+    v = (op == 'a') ? (v & i) : (op == 'o') ? (v | i) : (v ^ i);
+    sem_wr32(a, v);
+    sem_havoc_arith_flags(m);
+    m->rip = next;
+}
+/* and/or r64, imm (sign-extended) */
+static inline void sem_alu_ri(struct x86 *m, uint64_t next, char op, int dst, int64_t imm)
+{
+    m->r[dst] = (op == 'a') ? (m->r[dst] & (uint64_t)imm) : (m->r[dst] | (uint64_t)imm);
+    sem_havoc_arith_flags(m);
+    m->rip = next;
+}
+/* mov r64, imm */
+static inline void sem_mov_ri(struct x86 *m, uint64_t next, int dst, int64_t imm)
+{
+    m->r[dst] = (uint64_t)imm;
+    m->rip = next;
+}
+
 /* stmxcsr DWORD PTR [base+disp] */
 static inline void sem_stmxcsr_m(struct x86 *m, uint64_t next, int base, int64_t disp)
 {
